@@ -66,3 +66,11 @@ register('C08', [
     'Rosomaxa (self-organising) population: needs Environment with thread pools and the GSOM network',
     'a seeded full solve never returns a worse solution (whole solver run)',
 ])
+
+register('C10', [
+    'window bounds are integer-valued f64 from i16 (rule obligations) / arbitrary f64 bit patterns (totality obligation)',
+    'the documentation does not say whether an empty times list is allowed: only totality is demanded for it',
+], [
+    'JSON/serde layer, RFC3339 parsing (time crate), all String-keyed rules (ids, duplicates, relations, objectives, routing/matrix rules)',
+    'E1102 demand sums (behind ValidationContext, not constructible symbolically)',
+])
